@@ -123,9 +123,14 @@ def _merge(prop, summaries, skipped, n, tier):
     else:
         if nprog < max(6, n // 5):
             reasons.append("only %d deferral programs ran" % nprog)
-        for c in ("c24_avail_multi_tick", "c24_lazy_held_at_stop", "c24_wake_fired", "c24_direct_defer_checks"):
+        for c in ("c24_avail_multi_tick", "c24_lazy_held_at_stop", "c24_wake_fired", "c24_direct_defer_checks",
+                  "c24_loop_lazy_held_at_stop"):
             if counters.get(c, 0) == 0:
                 reasons.append("situation never observed: %s" % c)
+        # run_available_sync calls that needed >= 2 ticks because of a defer_tick inside a root-level loop
+        if counters.get("c24_loop_defer_avail_multi_tick", 0) < 100:
+            reasons.append("only %d run_available_sync histories kept ticking because of a defer_tick inside a root-level loop"
+                           % counters.get("c24_loop_defer_avail_multi_tick", 0))
     if distinct < 200:
         reasons.append("only %d distinct non-trivial (program, history) pairs" % distinct)
 
